@@ -30,7 +30,8 @@ RULE = ("shape/dtype/value(trace_call(f, args)) == f(args); inline_calls(tag_all
 ASSUMPTIONS = ["vf.oracle.refeval (its Call rule evaluates the body in a fresh environment of "
                "the evaluated bindings) is the meaning of a call; guarded by the NumPy shadow"]
 MIN_MONITOR = {"mon.traced": 300, "mon.value": 600, "mon.inlined": 300, "mon.inverse": 300,
-               "mon.keyword_calls": 80, "mon.nested": 40, "mon.repeated": 40}
+               "mon.keyword_calls": 80, "mon.nested": 40, "mon.repeated": 40,
+               "mon.call_in_argument": 40}
 SHARD_TIMEOUT = {"quick": 900, "thorough": 7200}
 N_PROGRAMS = {"quick": 480, "thorough": 10000}
 PROFILES = ["mixed", "elementwise", "reduce", "index", "einsum", "zero"]
@@ -81,7 +82,7 @@ def scenario(spec: dict[str, Any], rng: Any) -> dict[str, Any]:
         caller_names = {}
     return {"params": [p["id"] for p in params], "kw": {str(k): v for k, v in kwnames.items()},
             "ret": ret, "caller_names": {str(k): v for k, v in caller_names.items()},
-            "arg_expr": rng.choice(["plain", "plain", "scaled", "shared"]),
+            "arg_expr": rng.choice(["plain", "plain", "scaled", "shared", "call", "call"]),
             "depth": rng.choice([1, 1, 1, 2, 3]), "repeat": rng.random() < 0.3,
             "reuse_definition": rng.random() < 0.5}
 
@@ -166,12 +167,20 @@ def check_case(case: dict[str, Any], col: common.Collector) -> None:
         col.case()
         return
 
-    def arg_for(pid: int) -> Any:
+    def helper(a: Any, b: Any) -> Any:
+        # value-identical to a; uses both parameters
+        return a + b * 0 if a.dtype.kind in "ifc" else pt.where(pt.equal(b, b), a, b)
+    helper.__name__ = "vf_helper"
+
+    def arg_for(pid: int, traced: bool = True) -> Any:
         a = caller[pid]
         if sc["arg_expr"] == "scaled" and a.dtype.kind in "fc":
             return (a * 2) * 0.5          # an expression, value-identical (exact scaling)
         if sc["arg_expr"] == "shared" and a.dtype.kind in "ifc":
             return a + 0
+        if sc["arg_expr"] == "call":
+            # the argument is itself (an expression of) a call result
+            return pt.trace_call(helper, a, a) if traced else helper(a, a)
         return a
 
     # non-parameter placeholders are closed over by the body: outside trace_call's contract,
@@ -182,11 +191,15 @@ def check_case(case: dict[str, Any], col: common.Collector) -> None:
         sc["params"] = list(sc["params"]) + extra
         f, pos_ids, kw = make_function(spec, sc, vset)
         wit = {"spec": spec, "scenario": sc}
-    args = [arg_for(p) for p in pos_ids]
-    kwargs = {name: arg_for(pid) for pid, name in kw.items()}
     # ---- direct application
     try:
-        direct = as_dict(f(*args, **kwargs), spec, sc)
+        dargs = [arg_for(p, False) for p in pos_ids]
+        dkwargs = {name: arg_for(pid, False) for pid, name in kw.items()}
+        args = [arg_for(p) for p in pos_ids]
+        kwargs = {name: arg_for(pid) for pid, name in kw.items()}
+        if sc["arg_expr"] == "call":
+            col.count("mon.call_in_argument")
+        direct = as_dict(f(*dargs, **dkwargs), spec, sc)
         dvals = evaluate(direct, env)
     except Exception as e:  # noqa: BLE001 -- C01/C03's business
         col.histo("skipped", f"direct:{type(e).__name__}")
